@@ -179,6 +179,9 @@ class Engine(StmtMixin, LoopMixin, CallMixin, Expr2Mixin, ExprMixin, EngineBase)
         entry = {}
         for p in pnames:
             v = spec.params[p].fresh('arg_' + p)
+            if isinstance(v, VList):
+                # a list is an abstract sequence: w.l.o.g. the parameter's representation starts at offset 0
+                v = VList(v.elem, v.arrs, z3.IntVal(0), v.n)
             st.assume(*self.wf(v, st))
             if isinstance(v, VList):
                 v = st.new_list(v)
